@@ -300,13 +300,13 @@ pub fn check(tier: Tier, seed: u64) -> PropReport {
         "faults are injected by wrappers around the bank module, the token-factory mock and the contract entry points".into(),
     ];
     let t = match tier {
-        Tier::Quick => 2500,
+        Tier::Quick => 8000,
         Tier::Thorough => 60_000,
     };
     let o = drive(&Twin, "C14", tier, t, seed);
     rep.push(Twin.name(), o);
     let x = match tier {
-        Tier::Quick => 800,
+        Tier::Quick => 3000,
         Tier::Thorough => 30_000,
     };
     let o = drive(&Faults, "C14", tier, x, seed);
